@@ -291,7 +291,11 @@ class Result:
                     "parts": []}
         self.assumptions = []
 
-    def add_hit(self, hit, scn, findings, extra=None):
+    def add_hit(self, hit, scn, findings, extra=None, adopt=None):
+        if adopt and hit["mon"] in adopt:
+            hit = dict(hit)
+            hit["via"] = hit["mon"]
+            hit["mon"] = adopt[hit["mon"]]
         label = hit["mon"]
         owner = label.split(".")[0]
         if owner != self.prop and owner != "BIND":
@@ -307,7 +311,7 @@ class Result:
         self.violations.append((label, payload))
 
 
-def tv_part(res, fams, count, seed, tier, name, min_events=None, label_filter=None):
+def tv_part(res, fams, count, seed, tier, name, min_events=None, label_filter=None, adopt=None):
     """Trace validation of `count` scenarios of each family."""
     d = workdir("%s_%s" % (res.prop, name))
     trace, scnf = record(fams, seed, tier, count, d)
@@ -316,7 +320,7 @@ def tv_part(res, fams, count, seed, tier, name, min_events=None, label_filter=No
     out = tlc_trace(trace, os.path.join(d, "meta"))
     findings = load_findings()
     for hit in out["mons"]:
-        res.add_hit(hit, scns.get((hit["fam"], hit["id"])), findings)
+        res.add_hit(hit, scns.get((hit["fam"], hit["id"])), findings, adopt=adopt)
     if not out["accepted"]:
         # find the scenario of the first unmatched event
         scn = None
@@ -459,15 +463,29 @@ def check_C05(res, tier, seed):
     tv_part(res, ["assume"], n(tier, 60, 600), seed, tier, "assume")
 
 
+# In the dedicated families a wrong solution set IS the violation of the family's property: the
+# generic monitors are adopted under the property's own label.
+SOLSET = {"C01.SolutionHolds": "NonSolutionAdmitted", "C03.IsSolution": "NonSolutionAdmitted",
+          "C01.Total": "NonSolutionAdmitted", "C03.Complete": "SolutionLost",
+          "C03.NoRepeat": "SolutionRepeated", "C02.UnsatRight": "SolutionLost",
+          "C02.PostErrRight": "SolutionLost", "C10.NoPanic": "Panic", "C10.NoHang": "Hang",
+          "C02.NoTermination": "NoTermination"}
+
+
+def adopt_for(prop):
+    return {k: prop + "." + v for k, v in SOLSET.items()}
+
+
 def check_C08(res, tier, seed):
     # 144 option combinations are visited index by index; quick: 2 task sets each, thorough: 20
     tv_part(res, ["cumulative"], n(tier, 288, 2880), seed, tier, "cumulative",
-            min_events={"IterSolution": 200})
+            min_events={"IterSolution": 200}, adopt=adopt_for("C08"))
 
 
 def check_C09(res, tier, seed):
     # 20 kinds x 3 wrappings, index-driven; quick: 4 rounds, thorough: 40
-    tv_part(res, ["reif"], n(tier, 240, 2400), seed, tier, "reif", min_events={"IterSolution": 200})
+    tv_part(res, ["reif"], n(tier, 240, 2400), seed, tier, "reif", min_events={"IterSolution": 200},
+            adopt=adopt_for("C09"))
 
 
 def check_C10(res, tier, seed):
@@ -480,6 +498,8 @@ def check_C12(res, tier, seed):
 
 def check_C17(res, tier, seed):
     tv_part(res, ["solve"], n(tier, 80, 800), seed + 17, tier, "solve", min_events={"Propagated": 50})
+    tv_part(res, ["cumulative", "reif"], n(tier, 60, 600), seed + 17, tier, "kinds")
+    tv_part(res, ["assume", "history", "optimise"], n(tier, 30, 300), seed + 17, tier, "multi")
 
 
 def check_C18(res, tier, seed):
